@@ -410,7 +410,7 @@ def eval_admission(paths, kind, addr, size, off, ln, szt, aligned, mem_d, io_d):
         if t[0] == 'cast' and 'Expose' in t[1]:
             return leaf(t[3]) if t[3][0] == 'call' else 0
         raise Unfoldable(fmt(t)[:100])
-    fo = Folder(leaf, generic={'T': szt})
+    fo = Folder(leaf, generic={'T': szt, 'alignof:T': 4 if not aligned else 1})
     try:
         for p in paths:
             if path_holds(fo, p):
